@@ -288,7 +288,7 @@ SWEEP_RULE = ('for one doctest of a sampled world, at a sampled verbosity and ru
 
 def sweep(rng, h):
     base = generate(rng, 'thorough')
-    while base.get('kind') in ('trace', 'stream'):
+    while base.get('kind') in ('trace', 'stream', 'zero'):
         base = generate(rng, 'thorough')
     target = None
     for op in base['ops']:
@@ -341,8 +341,7 @@ def check(rec):
         async_fault = expect.has_async_fault(scn, e['dtid'], e['k'])
         # R2: the summary says failed
         if async_fault:
-            fired = [f for f in e['fired'] if f[0].startswith('trace:')] or \
-                    [f for f in rec['fired'] if f[0].startswith('stream:')]
+            fired = [f for f in e['fired'] if f[0].startswith('trace:')] or list(e.get('stream_fired') or [])
             spec_steps = expect.spec_index(scn['world'])[e['dtid']][0]['steps']
             awaits = any(st['form'] in W.ASYNC_FORMS for st in spec_steps)
             # (in a doctest that awaits, the fault may land in a task other than the
